@@ -150,4 +150,170 @@ non-empty and contains no separator of the tokeniser, so it is read back as ONE 
 theorem fixed_word (x : Float) (prec : Nat) : Word isSep (Fmt.fixed x prec).toList :=
   ⟨fixed_ne_nil x prec, fun c hc => (fixed_printable x prec c hc).not_sep⟩
 
+/-! ## 3. the tokens of the text written by `Fmt.output` -/
+
+/-- the tokens of line `i` of the file: the node, then its `nvars` variables (with the defaults the
+model's `output` uses for missing entries) -/
+def lineToks (m : Mesh1 Float Float) (prec i : Nat) : List String :=
+  Fmt.fixed (m.nodes[i]?.getD 0.0) prec ::
+    (List.range m.nvars).map (fun v => Fmt.fixed ((m.vars[i]?.getD #[])[v]?.getD 0.0) prec)
+
+theorem lineToks_length (m : Mesh1 Float Float) (prec i : Nat) :
+    (lineToks m prec i).length = m.nvars + 1 := by
+  simp [lineToks]
+
+/-- the characters of the written text: every token followed by a space, every line by a newline -/
+theorem output_toList (m : Mesh1 Float Float) (prec : Nat) :
+    (Fmt.output m prec).toList = (List.range m.nodes.size).flatMap
+      (fun i => (lineToks m prec i).flatMap (fun w => w.toList ++ [' ']) ++ ['\n']) := by
+  have h : Fmt.output m prec = (List.range m.nodes.size).foldl (fun acc i => acc ++
+      ((List.range m.nvars).foldl (fun l v =>
+        l ++ Fmt.fixed ((m.vars[i]?.getD #[])[v]?.getD 0.0) prec ++ " ")
+        (Fmt.fixed (m.nodes[i]?.getD 0.0) prec ++ " ")) ++ "\n") "" := rfl
+  rw [h, foldl_append2_toList]
+  simp only [String.toList_empty, List.nil_append]
+  congr 1
+  funext i
+  rw [foldl_append2_toList]
+  simp only [lineToks, List.flatMap_cons, List.flatMap_map, String.toList_append]
+  rfl
+
+/-- `output_tokens_getD`: for ANY mesh, the tokens `Fmt.read` finds in the text written by
+`Fmt.output` are, line by line, the printed node and the printed variables (row-major). -/
+theorem output_tokens_getD (m : Mesh1 Float Float) (prec : Nat) :
+    tokens (Fmt.output m prec) = (List.range m.nodes.size).flatMap (lineToks m prec) := by
+  have h := tokens_lines (Fmt.output m prec) ((List.range m.nodes.size).map (lineToks m prec))
+    (by
+      intro l hl w hw
+      obtain ⟨i, -, rfl⟩ := List.mem_map.1 hl
+      simp only [lineToks, List.mem_cons, List.mem_map] at hw
+      rcases hw with rfl | ⟨v, -, rfl⟩ <;> exact fixed_word _ _)
+    (by rw [output_toList, List.flatMap_map])
+  rw [h, List.flatMap_def]
+
+/-- the number of tokens: `nvars + 1` per node -/
+theorem output_tokens_length (m : Mesh1 Float Float) (prec : Nat) :
+    (tokens (Fmt.output m prec)).length = m.nodes.size * (m.nvars + 1) := by
+  rw [output_tokens_getD]
+  exact length_flatMap_range _ _ (lineToks_length m prec) _
+
+theorem zip_eq_map_range {α β : Type} (l1 : List α) (l2 : List β) (n : Nat) (h1 : l1.length = n)
+    (h2 : l2.length = n) (d1 : α) (d2 : β) :
+    l1.zip l2 = (List.range n).map (fun i => (l1[i]?.getD d1, l2[i]?.getD d2)) := by
+  apply List.ext_getElem
+  · simp [h1, h2]
+  · intro i hi hi'
+    simp only [List.length_zip, h1, h2, Nat.min_self] at hi
+    simp [List.getElem?_eq_getElem (h1 ▸ hi), List.getElem?_eq_getElem (h2 ▸ hi)]
+
+theorem map_range_getD {α β : Type} (row : Array α) (d : α) (f : α → β) :
+    (List.range row.size).map (fun v => f (row[v]?.getD d)) = row.toList.map f := by
+  apply List.ext_getElem
+  · simp
+  · intro i hi hi'
+    simp only [List.length_map, List.length_range] at hi
+    simp [hi]
+
+/-- `output_tokens`: for a well-shaped mesh the token list of the written text is exactly
+`[fixed x_0, fixed v_{0,0}, …, fixed v_{0,nvars-1}, fixed x_1, …]`: nodes paired with their rows, in
+order, every value printed by `Fmt.fixed`. -/
+theorem output_tokens (m : Mesh1 Float Float) (prec n : Nat) (hm : m.Shaped n) :
+    tokens (Fmt.output m prec) = (m.nodes.toList.zip m.vars.toList).flatMap
+      (fun p => Fmt.fixed p.1 prec :: p.2.toList.map (fun v => Fmt.fixed v prec)) := by
+  obtain ⟨h1, h2, h3⟩ := hm
+  rw [output_tokens_getD, zip_eq_map_range m.nodes.toList m.vars.toList n (by simpa using h1)
+    (by simpa using h2) 0.0 #[], List.flatMap_map, h1]
+  apply List.flatMap_congr
+  intro i hi
+  have hi' : i < m.vars.size := by rw [h2]; exact List.mem_range.1 hi
+  simp only [lineToks, Array.getElem?_toList, List.cons.injEq, true_and]
+  rw [Array.getElem?_eq_getElem hi', Option.getD_some, ← h3 i hi']
+  exact map_range_getD m.vars[i] 0.0 (fun v => Fmt.fixed v prec)
+
+/-- token `i * (nvars + 1)` of the written text is the printed node `i` -/
+theorem output_token_node (m : Mesh1 Float Float) (prec : Nat) (i : Nat) (hi : i < m.nodes.size) :
+    (tokens (Fmt.output m prec))[i * (m.nvars + 1)]? = some (Fmt.fixed m.nodes[i] prec) := by
+  rw [output_tokens_getD]
+  have := getElem?_flatMap_range (lineToks m prec) (m.nvars + 1) (lineToks_length m prec)
+    m.nodes.size i 0 hi (Nat.succ_pos _)
+  rw [Nat.add_zero] at this
+  rw [this]
+  simp [lineToks, hi]
+
+/-- token `i * (nvars + 1) + j + 1` of the written text is the printed variable `j` of node `i` -/
+theorem output_token_var (m : Mesh1 Float Float) (prec n : Nat) (hm : m.Shaped n) (i j : Nat)
+    (hi : i < m.vars.size) (hj : j < m.vars[i].size) :
+    (tokens (Fmt.output m prec))[i * (m.nvars + 1) + (j + 1)]?
+      = some (Fmt.fixed m.vars[i][j] prec) := by
+  obtain ⟨h1, h2, h3⟩ := hm
+  have hj' : j < m.nvars := by rw [← h3 i hi]; exact hj
+  rw [output_tokens_getD,
+    getElem?_flatMap_range (lineToks m prec) (m.nvars + 1) (lineToks_length m prec)
+      m.nodes.size i (j + 1) (by omega) (by omega)]
+  simp [lineToks, hi, hj, hj']
+
+/-! ## 4. write, then read -/
+
+/-- `read_output_shape`: reading the text written for a mesh `m` into a mesh `r` with the same
+`nvars` (whose rows have `nvars` entries; its number of nodes is irrelevant — `read` takes `nvars`
+from the receiving mesh and resizes `vars` to the number of nodes found) gives a mesh of the shape
+of `m`: as many nodes and rows as `m` has nodes, `nvars` entries per row. -/
+theorem read_output_shape (m r : Mesh1 Float Float) (prec : Nat) (hr : r.RowsOk)
+    (hnv : r.nvars = m.nvars) :
+    (Fmt.read r (Fmt.output m prec)).nvars = m.nvars ∧
+      (Fmt.read r (Fmt.output m prec)).Shaped m.nodes.size := by
+  have h := read_shape r hr (Fmt.output m prec) m.nodes.size
+    (by rw [output_tokens_length, hnv])
+  exact ⟨h.1.trans hnv, h.2⟩
+
+/-- `read_output_values`: the file-level round trip reduces EXACTLY to the token-level one — node
+`i` read back is `parse (fixed x_i prec)` and variable `(i, j)` read back is
+`parse (fixed v_{i,j} prec)`, for every node and every variable of a well-shaped mesh (all values,
+finite or not). -/
+theorem read_output_values (m r : Mesh1 Float Float) (prec n : Nat) (hm : m.Shaped n)
+    (hr : r.RowsOk) (hnv : r.nvars = m.nvars) :
+    (∀ i (hi : i < m.nodes.size),
+      (Fmt.read r (Fmt.output m prec)).nodes[i]? = some (Fmt.parse (Fmt.fixed m.nodes[i] prec))) ∧
+    (∀ i j (hi : i < m.vars.size) (hj : j < m.vars[i].size),
+      (Fmt.read r (Fmt.output m prec)).vars[i]?.bind (·[j]?)
+        = some (Fmt.parse (Fmt.fixed m.vars[i][j] prec))) := by
+  have hlen : (tokens (Fmt.output m prec)).length = m.nodes.size * (r.nvars + 1) := by
+    rw [output_tokens_length, hnv]
+  constructor
+  · intro i hi
+    rw [read_nodes r _ _ hlen i hi, hnv, output_token_node m prec i hi]
+    rfl
+  · intro i j hi hj
+    have hi' : i < m.nodes.size := by rw [hm.1, ← hm.2.1]; exact hi
+    have hj' : j < r.nvars := by rw [hnv, ← hm.2.2 i hi]; exact hj
+    rw [read_vars r hr _ _ hlen i j hi' hj', hnv, output_token_var m prec n hm i j hi hj]
+    rfl
+
+/-- the same through the accessors of the mesh: `coord` and `mesh[node]` / `getNodesVars` -/
+theorem read_output_values_coord (m r : Mesh1 Float Float) (prec n : Nat) (hm : m.Shaped n)
+    (hr : r.RowsOk) (hnv : r.nvars = m.nvars) (i : Nat) (hi : i < m.nodes.size) :
+    (Fmt.read r (Fmt.output m prec)).coord i = .ok (Fmt.parse (Fmt.fixed m.nodes[i] prec)) := by
+  unfold Mesh1.coord
+  rw [Mat.aget_eq_ok]
+  exact (read_output_values m r prec n hm hr hnv).1 i hi
+
+theorem read_output_values_index (m r : Mesh1 Float Float) (prec n : Nat) (hm : m.Shaped n)
+    (hr : r.RowsOk) (hnv : r.nvars = m.nvars) (i : Nat) (hi : i < m.vars.size) :
+    ∃ row, (Fmt.read r (Fmt.output m prec)).index i = .ok row ∧
+      (Fmt.read r (Fmt.output m prec)).getNodesVars i = .ok row ∧
+      row.size = m.vars[i].size ∧
+      ∀ j (hj : j < m.vars[i].size), row[j]? = some (Fmt.parse (Fmt.fixed m.vars[i][j] prec)) := by
+  obtain ⟨hnv', hs1, hs2, hs3⟩ := read_output_shape m r prec hr hnv
+  have hin : i < (Fmt.read r (Fmt.output m prec)).vars.size := by
+    rw [hs2, hm.1, ← hm.2.1]; exact hi
+  refine ⟨(Fmt.read r (Fmt.output m prec)).vars[i], Mat.aget_ok hin, ?_, ?_, ?_⟩
+  · unfold Mesh1.getNodesVars
+    rw [if_neg (by rw [hs1, ← hs2]; omega)]
+    exact Mat.aget_ok hin
+  · rw [hs3 i hin, hnv', hm.2.2 i hi]
+  · intro j hj
+    have := (read_output_values m r prec n hm hr hnv).2 i j hi hj
+    rw [Array.getElem?_eq_getElem hin] at this
+    exact this
+
 end Ohsl.Props.C19
